@@ -71,7 +71,7 @@ def gen_plan(rng, tier, i, seed):
             "hashseed": rng.choice([0, 1, 2]),
             "k": rng.choice([0, 1, 5, 50, 200]), "which_open": rng.choice([2, 3]),
             # history: the healthy sample (same file name) is genotyped first in the same process
-            "warm": rng.random() < 0.5,
+            "warm": rng.choice([False, "healthy", "healthy", "exome"]),
             "err": rng.choice(["OSError", "OSError", "ValueError"])}
 
 
@@ -419,8 +419,13 @@ def run_segment(seg):
             stream["drop"] = [[min(x for _, x, y in ga["regions"]), max(y for _, x, y in ga["regions"])],
                               [min(x for _, x, y in ga["pregions"]), max(y for _, x, y in ga["pregions"])]]
     if seg.get("warm"):
-        # an earlier, healthy run in the same process (an API user or `--gene all` does this)
-        w = O.run_genotype(dba, os.path.join(wd, man["samples"]["s0"]), prof, None, cn_region=cnr, cn_solution=cns)
+        # an earlier run in the same process (an API user or `--gene all` does this): the healthy sample
+        # through the same route, or through the exome route (copy-number calling off; for a generated
+        # gene it ends in a reported error, which must leave nothing behind)
+        if seg["warm"] == "exome":
+            w = O.run_genotype(dba, os.path.join(wd, man["samples"]["s0"]), "exome", None, cn_region=man["neutral"])
+        else:
+            w = O.run_genotype(dba, os.path.join(wd, man["samples"]["s0"]), prof, None, cn_region=cnr, cn_solution=cns)
         w.pop("_raw", None)
         streams.reset()
     if stream:
